@@ -5,6 +5,7 @@ import (
 	"errors"
 	"fmt"
 	"reflect"
+	"regexp"
 	"strconv"
 	"strings"
 
@@ -61,7 +62,12 @@ type NoIface struct{ ID, MBeh int }
 
 // the scripted data is valid JSON (an array of three numbers), so that a helper which
 // normalises JSON before comparing is also exercised
-func c20Data(id, mbeh, ubeh int) string { return fmt.Sprintf("[%d,%d,%d]", ubeh, id, mbeh) }
+func c20Data(id, mbeh, ubeh int) string {
+	if id%7 == 0 { // long payload (several KiB): the interesting part of a difference may sit in the middle
+		return fmt.Sprintf("[%d,%d,%d,%q]", ubeh, id, mbeh, strings.Repeat("payload-", 400))
+	}
+	return fmt.Sprintf("[%d,%d,%d]", ubeh, id, mbeh)
+}
 func c20ErrText(id int) string         { return fmt.Sprintf("boom %d", id) }
 
 // marshal behaviours: 0 right data; 1 error; 2 error together with data; 3 panic.
@@ -74,6 +80,8 @@ func c20Marshal(id, mbeh int) ([]byte, error) {
 		return nil, errors.New(c20ErrText(id))
 	case 2:
 		return []byte(c20Data(id, mbeh, 0)), errors.New(c20ErrText(id))
+	case 4: // an error with its own text that wraps an inner error carrying the plain scripted text
+		return nil, fmt.Errorf("outer layer: %w", errors.New(c20ErrText(id)))
 	}
 	panic(fmt.Sprintf("kaboom %d", id))
 }
@@ -84,6 +92,9 @@ func c20Unmarshal(data []byte) (id, mbeh int, set bool, err error) {
 	s := strings.TrimSuffix(string(data), "#other")
 	s = strings.NewReplacer(" ", "", "\n", "", "[", "", "]", "").Replace(s)
 	parts := strings.Split(s, ",")
+	if len(parts) == 4 {
+		parts = parts[:3]
+	}
 	if len(parts) != 3 {
 		return 0, 0, false, fmt.Errorf("unparsable scripted data %q", data)
 	}
@@ -99,6 +110,8 @@ func c20Unmarshal(data []byte) (id, mbeh int, set bool, err error) {
 		return 0, 0, false, errors.New(c20ErrText(id))
 	case 3:
 		return id, mbeh, true, errors.New(c20ErrText(id))
+	case 5:
+		return 0, 0, false, fmt.Errorf("outer layer: %w", errors.New(c20ErrText(id)))
 	}
 	panic(fmt.Sprintf("kaboom %d", id))
 }
@@ -230,7 +243,21 @@ func c20ErrFunc(s c20Spec) test.AssertErrorFunc {
 }
 
 // predicateMet: does a non-nil, non-panic error of the scripted text satisfy the predicate?
-func c20PredicateMet(kind int) bool { return kind == 1 || kind == 2 || kind == 4 || kind == 6 || kind == 8 }
+func c20PredicateMet(kind int, errText string, id int) bool {
+	switch kind {
+	case 1:
+		return true
+	case 2:
+		return errText == c20ErrText(id)
+	case 4:
+		return strings.HasPrefix(errText, "boom ")
+	case 6:
+		return strings.HasSuffix(errText, " "+strconv.Itoa(id))
+	case 8:
+		return regexp.MustCompile(`^boom \d+$`).MatchString(errText)
+	}
+	return false
+}
 
 func c20Hook[C any](kind int) func(int, *C) error {
 	switch kind {
@@ -249,6 +276,11 @@ func c20ExpectedData(s c20Spec) string {
 	// the marshaler always writes unmarshal-behaviour 0 into its output; a case that is used in both
 	// directions and wants another unmarshal behaviour therefore cannot also expect the right data
 	if !s.DataRight {
+		if s.ID%7 == 0 { // same length, same head and tail, one byte in the middle differs
+			b := []byte(d)
+			b[len(b)/2] ^= 1
+			return string(b)
+		}
 		if s.ID%2 == 0 { // differs only in insignificant JSON whitespace
 			return strings.ReplaceAll(d, ",", ", ") + "\n"
 		}
@@ -281,12 +313,16 @@ func c20JudgeCase(s c20Spec, marshalDir bool) (applicable bool, j c20Judgement) 
 		return true, c20Judgement{oFail, "after hook"}
 	}
 	var panics, hasErr, hasResult, rightResult bool
+	errText := c20ErrText(s.ID)
+	if marshalDir && s.MBeh == 4 || !marshalDir && s.UBeh == 5 {
+		errText = "outer layer: " + errText
+	}
 	if marshalDir {
-		panics, hasErr, hasResult = s.MBeh == 3, s.MBeh == 1 || s.MBeh == 2, s.MBeh == 0 || s.MBeh == 2
+		panics, hasErr, hasResult = s.MBeh == 3, s.MBeh == 1 || s.MBeh == 2 || s.MBeh == 4, s.MBeh == 0 || s.MBeh == 2
 		// what the marshaler writes is c20Data(ID, MBeh, 0); the case expects c20ExpectedData
 		rightResult = s.DataRight && s.UBeh == 0
 	} else {
-		panics, hasErr, hasResult = s.UBeh == 4, s.UBeh == 2 || s.UBeh == 3, s.UBeh == 0 || s.UBeh == 1 || s.UBeh == 3
+		panics, hasErr, hasResult = s.UBeh == 4, s.UBeh == 2 || s.UBeh == 3 || s.UBeh == 5, s.UBeh == 0 || s.UBeh == 1 || s.UBeh == 3
 		rightResult = s.UBeh == 0 && s.ValueRight
 	}
 	if s.ErrKind != 0 {
@@ -296,8 +332,8 @@ func c20JudgeCase(s c20Spec, marshalDir bool) (applicable bool, j c20Judgement) 
 		if !hasErr {
 			return true, c20Judgement{oFail, "missing error"}
 		}
-		if !c20PredicateMet(s.ErrKind) {
-			if s.ErrKind == 9 {
+		if !c20PredicateMet(s.ErrKind, errText, s.ID) {
+			if s.ErrKind == 9 || s.ErrKind == 8 {
 				return true, c20Judgement{oFail, "errormatch-valid-pattern-nonmatching-nonnil-error"}
 			}
 			return true, c20Judgement{oFail, "unmet error predicate"}
@@ -536,13 +572,13 @@ func c20GenSpec(r *rt.Rand, id int) c20Spec {
 	// most cases satisfied, each defect introduced with moderate probability so single-defect lists are common
 	switch r.Intn(10) {
 	case 0:
-		s.MBeh = 1 + r.Intn(3)
+		s.MBeh = 1 + r.Intn(4)
 	case 1:
 		s.DataRight = false
 	}
 	switch r.Intn(10) {
 	case 0:
-		s.UBeh = 1 + r.Intn(4)
+		s.UBeh = 1 + r.Intn(5)
 	case 1:
 		s.ValueRight = false
 	}
@@ -552,7 +588,10 @@ func c20GenSpec(r *rt.Rand, id int) c20Spec {
 		s.MBeh, s.UBeh = 1, 2
 	case 1: // expects an error with an arbitrary predicate and arbitrary behaviour
 		s.ErrKind = 1 + r.Intn(10)
-		s.MBeh, s.UBeh = r.Intn(4), r.Intn(5)
+		s.MBeh, s.UBeh = r.Intn(5), r.Intn(6)
+	case 2: // expects the plain text and gets an error that only wraps it
+		s.ErrKind = []int{2, 4, 6, 8, 1}[r.Intn(5)]
+		s.MBeh, s.UBeh = 4, 5
 	}
 	if r.Chance(1, 4) {
 		s.Before = r.Intn(4)
